@@ -63,7 +63,8 @@ def astFacts : List (String × Nat) := [
   ("newUsesCryptoRand", Generated.newUsesCryptoRand),
   ("countedUnderLock", Generated.countedUnderLock),
   ("shutdownFlagUnderLock", Generated.shutdownFlagUnderLock),
-  ("dedupAtomic", Generated.dedupAtomic)]
+  ("dedupAtomic", Generated.dedupAtomic),
+  ("tickerPeriodIsRetry", Generated.tickerPeriodIsRetry)]
 
 def main : IO Unit := do
   for (n, g, e) in setFacts do
